@@ -3,8 +3,8 @@ import copy, itertools, random
 from .. import core, gen, ref
 from . import cu
 
-MODULES = ['DsdVerif.Props.C09', 'DsdVerif.Props.PyFuncs', 'DsdVerif.Props.PyComplexS2']
-GEN_FILES = ['PyFuncs', 'PyComplexS', 'PyComplexS2']
+MODULES = ['DsdVerif.Props.C09', 'DsdVerif.Props.PyFuncs', 'DsdVerif.Props.PyComplexS2', 'DsdVerif.Props.PyMembers3']
+GEN_FILES = ['PyFuncs', 'PyComplexS', 'PyComplexS2', 'PyIdentifiers']
 THEOREM_NAMES = ['split_spec', 'split_connected_id', 'split_fuel_mono', 'split_parts_wellformed',
                  # object level (World model): Props/C09Obj.lean
                  'splitC_connected_self', 'splitC_no_fault', 'splitC_components', 'splitC_twice', 'splitC_refusal_reason',
@@ -16,6 +16,8 @@ THEOREMS = ['Dsd.C09.' + t for t in THEOREM_NAMES] + ['Dsd.PyFuncs.' + t for t i
     'py_make_loop_index_eq', 'py_make_pair_table_eq', 'py_split_complex_db_eq', 'py_split_complex_db_wellformed']] + ['Dsd.PyComplexS2.' + t for t in [
     # ComplexS.split as written in the source (translator/pycomplex2.py -> Gen/PyComplexS2.lean; `self.__class__(nseq, nsst)` is a parameter `request`)
     'py_split_spec', 'py_split_components', 'splitRun_cons_ok', 'splitRun_cons_refused']]
+# the translated ComplexS.split equals World.splitC when the request parameter answers as the world does at each point of the run; splitC_components / splitC_twice transferred
+THEOREMS += ['Dsd.PyMembers3.' + t for t in ['py_split_eq_splitC', 'py_split_handles', 'py_split_components_world', 'py_split_twice']]
 ASSUMPTIONS = [
     'split_complex_pt is hand-modelled (Model/Complex.lean: splitScan, splice, splitPt with fuel = number of strands + 1) and tied to '
     'the code by the correspondence stream `split`',
